@@ -71,8 +71,11 @@ type modSpec struct {
 	Cons  []consSpec `json:"cons,omitempty"`
 	// Again: after the SetRule succeeded the caller edits the same object once more (count = Int2)
 	// and sets it again (server.SetReplicationConfig rolling back after a failed Persist).
-	Again bool `json:"again,omitempty"`
-	Int2  int  `json:"int2,omitempty"`
+	// Then: what follows an in-place edit ("in:..." fields): "" = SetRule, "reject" = the count is
+	// also set to 0 so that SetRule refuses, "none" = no SetRule at all.
+	Then  string `json:"then,omitempty"`
+	Again bool   `json:"again,omitempty"`
+	Int2  int    `json:"int2,omitempty"`
 }
 
 // opSpec is one update of a history.
@@ -556,6 +559,19 @@ func (md *model) apply(op opSpec) (next *model, wf bool, ambiguous bool) {
 		if !ok {
 			return md, false, false
 		}
+		nv := 0
+		if len(r.Cons) > 0 {
+			nv = len(r.Cons[0].Values)
+		}
+		if !inPlaceApplicable(op.Mod.Field, len(r.Cons), nv, len(r.Labels), len(r.start), len(r.end)) {
+			return md, false, false
+		}
+		if op.Mod.Then == "none" {
+			break // a returned object was edited, nothing was set: the configuration is the old one
+		}
+		if op.Mod.Then == "reject" {
+			return md, false, false
+		}
 		modifySpec(&r, op.Mod)
 		if !set(r, "") {
 			return md, false, false
@@ -626,7 +642,56 @@ func modifySpec(r *ruleSpec, m *modSpec) {
 		r.Iso = m.Str
 	case "cons":
 		r.Cons = append([]consSpec(nil), m.Cons...)
+	default:
+		modifyInPlaceSpec(r, m)
 	}
+}
+
+// modifyInPlaceSpec: the meaning of the in-place edits of a returned rule followed by SetRule. The
+// decoded key bytes are not part of what a client sets (SetRule derives them from the hex text),
+// so writing into them changes nothing.
+func modifyInPlaceSpec(r *ruleSpec, m *modSpec) {
+	cons := make([]consSpec, len(r.Cons))
+	for i, c := range r.Cons {
+		cons[i] = consSpec{Key: c.Key, Op: c.Op, Values: append([]string(nil), c.Values...)}
+	}
+	labels := append([]string(nil), r.Labels...)
+	switch m.Field {
+	case "in:values[0]":
+		cons[0].Values[0] = m.Str
+	case "in:cons[0].key":
+		cons[0].Key = m.Str
+	case "in:cons[0].op":
+		cons[0].Op = m.Str
+	case "in:append-values":
+		cons[0].Values = append(cons[0].Values, m.Str)
+	case "in:reslice-values":
+		cons[0].Values = cons[0].Values[:len(cons[0].Values)-1]
+	case "in:labels[0]":
+		labels[0] = m.Str
+	case "in:append-labels":
+		labels = append(labels, m.Str)
+	case "in:reslice-labels":
+		labels = labels[:len(labels)-1]
+	}
+	r.Cons, r.Labels = cons, labels
+}
+
+// inPlaceApplicable: the rule has the element that the in-place edit writes to.
+func inPlaceApplicable(field string, nCons, nValues, nLabels, nStart, nEnd int) bool {
+	switch field {
+	case "in:values[0]", "in:reslice-values":
+		return nCons > 0 && nValues > 0
+	case "in:cons[0].key", "in:cons[0].op", "in:append-values":
+		return nCons > 0
+	case "in:labels[0]", "in:reslice-labels":
+		return nLabels > 0
+	case "in:start[0]":
+		return nStart > 0
+	case "in:end[0]":
+		return nEnd > 0
+	}
+	return true
 }
 
 // stateKey is a canonical text of the configured state (used for distinct-case counting).
